@@ -3,6 +3,7 @@ import GoflowModel.Gen.Actions
 import GoflowModel.Driver.Util
 import GoflowModel.Engine.InspectRefs
 import GoflowModel.Gen.ContextDoc
+import GoflowModel.Engine.ResultSpecs
 namespace GoflowModel.Driver.Inspect
 open GoflowModel.Inspect GoflowModel.Driver
 
@@ -38,6 +39,18 @@ def handle : List String → Option String
     let wex := sortDedup ((waitingExits f).map toString)
     let show_ := fun (l : List String) => if l.isEmpty then "_" else ",".intercalate l
     some s!"keys {show_ keys} waiting {show_ wex}"
+  | ["rspecs", rs] => do
+    -- rspecs <key:name:node:cats(_|hex,hex…);…>  →  <key:name:cats:nodes;…>     (flows.NewResultSpecs; ASCII categories)
+    let parseR := fun (t : String) => match t.splitOn ":" with
+      | [k, n, nd, cs] => do
+        let cats ← (if cs == "_" then some [] else (cs.splitOn ",").mapM fun h => (decL h).map String.ofList)
+        some (⟨← k.toNat?, ← n.toNat?, cats, ← nd.toNat?⟩ : ResultSpecs.Extracted)
+      | _ => none
+    let ex ← (if rs == "_" then some [] else (rs.splitOn ";").mapM parseR)
+    let out := ResultSpecs.newResultSpecs String.toLower ex
+    let showS := fun (s : ResultSpecs.Spec) =>
+      s!"{s.key}:{s.name}:" ++ (if s.cats.isEmpty then "_" else ",".intercalate (s.cats.map Hex.enc)) ++ ":" ++ ",".intercalate (s.nodes.map toString)
+    some (if out.isEmpty then "_" else ";".intercalate (out.map showS))
   | ["ctxref", path] => do
     -- ctxref <hex,hex,…>  →  none | field:<hex key>;global:<hex key>;parentresult:<hex key>… sorted   (ExtractFromTemplate on one dotted chain)
     let p ← decList path
